@@ -36,3 +36,4 @@ def c11_empty_sparse(fam, case, verdict):
                                                       or any(case.get("vals", [1])))):
         return False
     return what.startswith("cp_apr raised IndexError on a sparse count tensor without stored entry")
+
